@@ -265,6 +265,113 @@ func (d *derivCtx) calleeFieldProv(c *ssa.Call, g *ssa.Function, f *types.Var, d
 	return p
 }
 
+// checkNoElementOverwrite: derived schemas may share the *elements* of their tests / transforms slices with the
+// schema they were derived from (a capacity-clipped slice shares its array up to its length), which is safe only as
+// long as nobody writes an element in place. No module function stores into an element of a slice of tests or of
+// post-transforms unless that slice was made in the same function.
+func (P *Prog) checkNoElementOverwrite(r *Result, rule string) {
+	R := P.roles
+	isRoleElem := func(t types.Type) bool {
+		if R.Test != nil && types.Identical(t.Underlying(), R.Test.Underlying()) {
+			return true
+		}
+		if sig, ok := t.Underlying().(*types.Signature); ok && sig.Params().Len() == 2 && sig.Results().Len() == 1 {
+			// PostTransform: func(any, Ctx) error
+			if it, ok := sig.Params().At(1).Type().Underlying().(*types.Interface); ok && R.Ctx != nil && types.Identical(it, R.Ctx) {
+				return true
+			}
+		}
+		return false
+	}
+	var fresh func(v ssa.Value, d int) bool
+	fresh = func(v ssa.Value, d int) bool {
+		if d > 5 {
+			return false
+		}
+		switch x := cv(v).(type) {
+		case *ssa.MakeSlice:
+			return true
+		case *ssa.Slice:
+			if al, ok := x.X.(*ssa.Alloc); ok {
+				return al.Parent() == x.Parent()
+			}
+			return fresh(x.X, d+1)
+		case *ssa.Call:
+			ci := callOf(x)
+			if ci.builtin == "append" {
+				return fresh(x.Call.Args[0], d+1)
+			}
+			if ci.static != nil && (originName(ci.static) == "slices.Clone") {
+				return true
+			}
+		case *ssa.Phi:
+			for _, e := range x.Edges {
+				if !fresh(e, d+1) {
+					return false
+				}
+			}
+			return true
+		}
+		return false
+	}
+	reads, writes := 0, 0
+	for _, fn := range P.Funcs {
+		if !inModule(funcPkgPath(fn)) {
+			continue
+		}
+		eachInstr(fn, func(_ *ssa.BasicBlock, _ int, in ssa.Instruction) {
+			ia, ok := in.(*ssa.IndexAddr)
+			if !ok {
+				return
+			}
+			sl, ok := ia.X.Type().Underlying().(*types.Slice)
+			if !ok || !isRoleElem(sl.Elem()) {
+				return
+			}
+			reads++
+			if ia.Referrers() == nil {
+				return
+			}
+			for _, rf := range *ia.Referrers() {
+				var st *ssa.Store
+				switch x := rf.(type) {
+				case *ssa.Store:
+					if x.Addr == ssa.Value(ia) {
+						st = x
+					}
+				case *ssa.FieldAddr:
+					// tests[i].Field = ...
+					if x.Referrers() != nil {
+						for _, u := range *x.Referrers() {
+							if s2, ok := u.(*ssa.Store); ok && s2.Addr == ssa.Value(x) {
+								st = s2
+							}
+						}
+					}
+				}
+				if st == nil {
+					continue
+				}
+				writes++
+				c := fmt.Sprintf("%s#element-store@%d", fname(fn), writes)
+				if fresh(ia.X, 0) {
+					r.ok(rule, c, P.ipos(st), "the element written belongs to a slice made in this function")
+				} else {
+					r.bad(rule, c, P.ipos(st), "an element of a tests / post-transforms slice is overwritten in place: schemas derived with Pick, Omit or Extend share those elements with their base (a clipped slice shares its array), so the base and its other derivations silently get the new test")
+				}
+			}
+		})
+	}
+	if reads == 0 {
+		r.broken("vacuous: the element-overwrite rule saw no indexing of a tests / post-transforms slice")
+	}
+	r.Extra["role_slice_index_sites"] = reads
+	r.Extra["role_slice_element_stores"] = writes
+	if writes == 0 {
+		r.ok(rule, "module", "-", fmt.Sprintf("no element of a tests / post-transforms slice is stored to in place (%d indexing sites looked at)", reads))
+	}
+}
+
 func checkC16(P *Prog, r *Result) {
 	R := P.roles
 	r.Explanation = "Decides independence of derived struct schemas structurally: in every function that builds a new schema object from existing ones (Pick, Omit, Extend, Merge and their helper), " +
@@ -456,6 +563,11 @@ func checkC16(P *Prog, r *Result) {
 
 	P.checkMergeOrder(r)
 	P.checkSelection(r)
+	P.checkNoElementOverwrite(r, "C16/no-element-overwrite")
+	// a derived schema is governed by the field map the derivation built: execution keeps no state of its own in the
+	// schema object (a field list resolved on first use and cached survives cloneShallow, so a schema derived from a
+	// base that has already run still visits the base's fields) - C08's write-effects rule on the struct kind
+	shareRule(P, r, checkC08, "C08/write-effects", func(o Obligation) bool { return strings.Contains(o.Construct, "StructSchema)") }, "C16/no-execution-state-in-schema", 2)
 }
 
 func originName(fn *ssa.Function) string {
